@@ -88,6 +88,9 @@ def run(ctx):
             if rep.get("watcher_threads_left", 0) > 0:
                 ctx.violation(f"C15/watchers-left:{kind}", f"{rep['watcher_threads_left']} file-watcher thread(s) of dropped caches still exist after further "
                               "file events under the root", dict(kind=kind, seed=sd))
+            if rep.get("threads_left_after_streams", 0) > 0:
+                ctx.violation(f"C15/alive-under-stream:{kind}", f"{rep['threads_left_after_streams']} reloader thread(s) of dropped caches are still there 0.7 s after the drop "
+                              "while notifications about a loaded asset keep arriving every 2 ms", dict(kind=kind, seed=sd))
             if rep.get("join_source_blocked", 0) > 0:
                 ctx.violation(f"C15/source-dropped-before-reloader:{kind}", f"{rep['join_source_blocked']} of 3 caches dropped their source while the reloader still "
                               "held its event channel: a source that waits for that channel to close in its destructor blocks drop(cache) (3 s limit reached)",
